@@ -26,6 +26,16 @@ Definition hfun (kind : Z) (kw : kwargs) : rv :=
   | 5 => RT [RT [RZ c; RZ (c + 1)]; RT [RZ (c + 2); RZ (c + 3)]]
   | 6 => RT [RZ c; RS c; RT [RZ c; RZ c; RZ c]]
   | 7 => RT [RB (c mod 2); RT [RT [RZ c; RZ c]]]
+  (* labelled outputs: k scalar outputs (11..13), k array outputs over an internal axis (21..23) *)
+  | 11 => RZ (10 * c)
+  | 12 => RT [RZ (10 * c); RZ (10 * c + 1)]
+  | 13 => RT [RZ (10 * c); RZ (10 * c + 1); RZ (10 * c + 2)]
+  | 21 => RT [RZ (10 * c); RZ (10 * c + 100); RZ (10 * c + 200)]
+  | 22 => RT [RT [RZ (10 * c); RZ (10 * c + 100); RZ (10 * c + 200)];
+              RT [RZ (10 * c + 1); RZ (10 * c + 101); RZ (10 * c + 201)]]
+  | 23 => RT [RT [RZ (10 * c); RZ (10 * c + 100); RZ (10 * c + 200)];
+              RT [RZ (10 * c + 1); RZ (10 * c + 101); RZ (10 * c + 201)];
+              RT [RZ (10 * c + 2); RZ (10 * c + 102); RZ (10 * c + 202)]]
   | _ => RD c
   end.
 
